@@ -40,6 +40,9 @@ pub struct CaseProbe {
     pub reset_applied: u32,
     pub echo_nondefault: u32,
     pub lenient_continued: u32,
+    pub eval_clock: u32,
+    pub armed: bool,
+    pub eval_points: u32,
 }
 
 thread_local! {
@@ -61,6 +64,21 @@ pub fn probe_take() -> CaseProbe {
 }
 pub fn probe<R>(f: impl FnOnce(&mut CaseProbe) -> R) -> R {
     PROBE.with(|p| f(&mut p.borrow_mut()))
+}
+
+/// Called from attribute argument expressions of corpus types (`#[debug("{}", eval_point())]`): tells *when*
+/// the expression was evaluated (how many `Bump`s fields have executed so far) and panics if a field armed
+/// the trap. Generated code that evaluates arguments earlier or later than std's builder chain does prints
+/// another number, or leaves another prefix in the sink when the panic unwinds.
+pub fn eval_point() -> u32 {
+    let (armed, t) = probe(|p| {
+        p.eval_points += 1;
+        (p.armed, p.eval_clock)
+    });
+    if armed {
+        panic!("armed attribute argument");
+    }
+    t
 }
 
 /// Defect model KF1 applied on the reference side only when `Side::RefAdj`.
@@ -180,6 +198,11 @@ pub enum Action {
     },
     /// the party fails: `return Err(fmt::Error)`
     Fail,
+    /// the party advances the *evaluation clock* (interior state that attribute argument expressions read:
+    /// what they print tells when they were evaluated relative to the fields' own `fmt` calls)
+    Bump,
+    /// the party arms a trap: the next attribute argument expression that is evaluated panics
+    Arm,
     /// from here on the party is *ill-behaved*: it keeps going after a failed step.
     /// 1 = returns the first error at the end, 2 = swallows errors and returns Ok
     Lenient(u8),
@@ -306,6 +329,14 @@ impl Action {
                 Err(fmt::Error)
             }
             Action::Lenient(_) => Ok(()),
+            Action::Bump => {
+                probe(|p| p.eval_clock += 1);
+                Ok(())
+            }
+            Action::Arm => {
+                probe(|p| p.armed = true);
+                Ok(())
+            }
         }
     }
 
